@@ -45,7 +45,7 @@ REQUIRED = ["branches_checked", "paths_checked", "tips_checked", "furcations_che
             "node_predicates_checked", "node_branch_checked", "branch_tree_checked",
             "branch_tree_memory_probed", "longest_path_checked", "root_one_child_trees",
             "derived_trees_checked", "negative_position_handles", "relinked_through_callers_array",
-            "fan_outs_of_256_and_more", "size_sweep_cases",
+            "fan_outs_of_256_and_more", "size_sweep_cases", "branch_tree_instances_decomposed",
             "tap_get_branches", "tap_from_tree"]
 FLOOR = {"quick": 550, "thorough": 50000}
 SHARDS = {"quick": 8, "thorough": 16}
@@ -121,6 +121,13 @@ def _exec(ctx, case):
             return
         base[k] = int(cands[int(rng.integers(0, len(cands)))])
         ctx.count("relinked_through_callers_array")
+    elif derive == "branch-tree" and n >= 3:
+        # a BranchTree instance is a tree: its decomposition (and *its* branch tree) follow from
+        # its own node table, not from the neuron it was once reduced from
+        t2, _ = G.as_branch_tree(tree)
+        if t2 is None:
+            return
+        ctx.count("branch_tree_instances_decomposed")
     elif derive == "sort":
         t2 = sort_tree(tree)
     else:
@@ -233,7 +240,7 @@ def _check(ctx, case, tree, spec):
                                                           f"branch containing it is {want}", case)
 
     # --- branch tree
-    for via in ("from_tree", "ToBranchTree"):
+    for via in ("ToBranchTree", "from_tree"):  # (the from_tree pass ends by rebuilding `tree`)
         bt = BranchTree.from_tree(tree) if via == "from_tree" else ToBranchTree()(tree)
         ctx.count("branch_tree_checked")
         wf = topo.well_formed(bt.id(), bt.pid())
@@ -340,7 +347,7 @@ def run(ctx):
             case = {"tree": rc}
             if k % 3 == 2:
                 case["derive"] = str(rng.choice(["redirect", "copy-edit", "edit-in-place", "sort",
-                                                   "edit-callers-array"]))
+                                                   "edit-callers-array", "branch-tree"]))
                 case["dseed"] = int(rng.integers(0, 2**31 - 1))
             ctx.case(case, nontrivial=rc["n"] >= 3, klass=rc["shape"] + "/" + rc["numbering"])
             execute(ctx, case)
